@@ -2,6 +2,8 @@ package sym
 
 import (
 	"math/big"
+	"sort"
+	"strconv"
 
 	"symgo/smt"
 )
@@ -15,13 +17,13 @@ import (
 // is handled by the caller as before.
 func (it *Interp) polyIsZeroFactored(d *Poly) *smt.Term {
 	if len(d.terms) != 2 {
-		return nil
+		return it.polyIsZeroDifference(d)
 	}
 	var ms []*mono
 	var cs []*big.Int
-	for k, co := range d.terms {
+	for _, k := range polyKeys(d) {
 		ms = append(ms, d.monos[k])
-		cs = append(cs, co)
+		cs = append(cs, d.terms[k])
 	}
 	if new(big.Int).Mod(new(big.Int).Add(cs[0], cs[1]), secpN).Sign() != 0 {
 		return nil
@@ -65,4 +67,82 @@ func (it *Interp) polyIsZeroFactored(d *Poly) *smt.Term {
 		}
 	}
 	return r
+}
+
+func polyKeys(d *Poly) []string {
+	keys := make([]string, 0, len(d.terms))
+	for k := range d.terms {
+		keys = append(keys, k)
+	}
+	sort.Strings(keys)
+	return keys
+}
+
+// monoDrop returns m without the atom a (which must occur in m with exponent 1).
+func monoDrop(m *mono, a *smt.Term) *mono {
+	r := unitMono
+	for i, t := range m.atoms {
+		if t == a {
+			continue
+		}
+		for e := 0; e < m.exps[i]; e++ {
+			r = monoMul(r, &mono{key: strconv.Itoa(t.ID) + "^1", atoms: []*smt.Term{t}, exps: []int{1}})
+		}
+	}
+	return r
+}
+
+// polyIsZeroDifference decides d == 0 (mod n) exactly for the shape d = (u − v)·P with u, v atoms that do not
+// occur in P (a signature made for challenge u verified under challenge v with a private key P that is a sum,
+// e.g. a member's DKG key share): d == 0 iff u = v or P == 0. Other shapes return nil.
+func (it *Interp) polyIsZeroDifference(d *Poly) *smt.Term {
+	if len(d.terms)%2 != 0 || len(d.terms) > 64 {
+		return nil
+	}
+	keys := polyKeys(d)
+	var atoms []*smt.Term
+	seen := map[int]bool{}
+	for _, k := range keys {
+		for _, a := range d.monos[k].atoms {
+			if !seen[a.ID] {
+				seen[a.ID] = true
+				atoms = append(atoms, a)
+			}
+		}
+	}
+	sort.Slice(atoms, func(i, j int) bool { return atoms[i].ID < atoms[j].ID })
+	exp := func(m *mono, a *smt.Term) int {
+		for i, t := range m.atoms {
+			if t == a {
+				return m.exps[i]
+			}
+		}
+		return 0
+	}
+	for i, u := range atoms {
+		for _, v := range atoms[i+1:] {
+			p, q := newPoly(), newPoly()
+			ok := true
+			for _, k := range keys {
+				m := d.monos[k]
+				eu, ev := exp(m, u), exp(m, v)
+				switch {
+				case eu == 1 && ev == 0:
+					p.addTerm(monoDrop(m, u), d.terms[k])
+				case eu == 0 && ev == 1:
+					q.addTerm(monoDrop(m, v), d.terms[k])
+				default:
+					ok = false
+				}
+				if !ok {
+					break
+				}
+			}
+			if !ok || len(p.terms) != len(q.terms) || len(polyAdd(p, q).terms) != 0 {
+				continue
+			}
+			return it.C.Or(it.C.Eq(u, v), it.polyIsZero(p))
+		}
+	}
+	return nil
 }
